@@ -237,6 +237,7 @@ func (r *receiver) run(ctx context.Context) error {
 				var metaOnly bool
 				if metadataTransfer {
 					if path == metadataPath {
+						i++
 						continue
 					}
 					n := p.Stat.SizeVT()
